@@ -304,6 +304,7 @@ func allValid(s wk.Spec) bool {
 
 type built struct {
 	name   string
+	detail string // which files / which split (part C)
 	w      b6.World
 	expect wk.Spec
 	err    error
@@ -444,6 +445,49 @@ func builderClass(name string) string {
 	return name
 }
 
+// judge runs the menu on every built world and compares with the reference
+// over the features the configuration is expected to hold. prefix names the
+// part in outcome and violation classes.
+func judge(r *kit.Result, bs []built, sch wk.IDScheme, desc, prefix string, menu, matchMenu []wk.RQ) {
+	for _, b := range bs {
+		if b.skip != "" {
+			r.AddOutcome(prefix + b.name + ":skipped:" + b.skip)
+			continue
+		}
+		what := desc
+		if b.detail != "" {
+			what += "\nconfiguration: " + b.detail
+		}
+		if b.err != nil {
+			r.Violate(prefix+b.name+":build-error", "scheme %s %s\nspec: %s\n%v", sch.Name, what, b.expect, b.err)
+			r.AddOutcome(prefix + b.name + ":build-error")
+			continue
+		}
+		// the world must hold exactly the expected features (what is in a built
+		// world is the business of C01/C02/C16/C17; search is judged against it)
+		var differs []string
+		for _, id := range wk.Universe(sch) {
+			if has, want := b.w.HasFeatureWithID(id), b.expect.Find(id) != nil; has != want {
+				differs = append(differs, fmt.Sprintf("%s present=%v", id, has))
+			}
+		}
+		if len(differs) > 0 {
+			r.AddOutcome(prefix + b.name + ":skipped:world-content-differs-from-spec")
+			r.Count("info:world-content-differs-from-spec["+b.name+"]", 1)
+			continue
+		}
+		ref := wk.NewRef(b.expect)
+		bad := checkMenu(r, b.w, menu, ref.Find)
+		r.AddOutcome(fmt.Sprintf("%s%s:%d-features", prefix, b.name, len(b.expect)))
+		for _, cls := range sortedKeys(bad) {
+			r.Violate(prefix+b.name+":"+cls, "scheme %s %s\nexpected features: %s\n%s", sch.Name, what, b.expect, bad[cls])
+		}
+		if matchMenu != nil && (b.name == "basic" || b.name == "compact") {
+			crossCheckMatches(r, b.w, matchMenu, b.expect.IDs(), func(id b6.FeatureID) map[string]string { return ref.Get(id).TagMap() })
+		}
+	}
+}
+
 func runStatic(spec wk.Spec, sch wk.IDScheme, names []string, menu, matchMenu []wk.RQ, memory, compacts, sample bool) kit.Result {
 	var r kit.Result
 	if len(spec) == 0 {
@@ -463,39 +507,7 @@ func runStatic(spec wk.Spec, sch wk.IDScheme, names []string, menu, matchMenu []
 	if sample {
 		r.Sample = map[string]interface{}{"scheme": sch.Name, "spec": spec.String(), "queries": len(menu)}
 	}
-	for _, b := range buildAll(spec, memory, compacts) {
-		if b.skip != "" {
-			r.AddOutcome("static:" + b.name + ":skipped:" + b.skip)
-			continue
-		}
-		if b.err != nil {
-			r.Violate("static:"+b.name+":build-error", "scheme %s %s\nspec: %s\n%v", sch.Name, strings.Join(names, " "), spec, b.err)
-			r.AddOutcome("static:" + b.name + ":build-error")
-			continue
-		}
-		// the world must hold exactly the expected features (what is in a built
-		// world is the business of C01/C02/C16/C17; search is judged against it)
-		var differs []string
-		for _, id := range wk.Universe(sch) {
-			if has, want := b.w.HasFeatureWithID(id), b.expect.Find(id) != nil; has != want {
-				differs = append(differs, fmt.Sprintf("%s present=%v", id, has))
-			}
-		}
-		if len(differs) > 0 {
-			r.AddOutcome("static:" + b.name + ":skipped:world-content-differs-from-spec")
-			r.Count("info:world-content-differs-from-spec["+b.name+"]", 1)
-			continue
-		}
-		ref := wk.NewRef(b.expect)
-		bad := checkMenu(&r, b.w, menu, ref.Find)
-		r.AddOutcome(fmt.Sprintf("static:%s:%d-features", b.name, len(b.expect)))
-		for _, cls := range sortedKeys(bad) {
-			r.Violate("static:"+b.name+":"+cls, "scheme %s %s\nexpected features: %s\n%s", sch.Name, strings.Join(names, " "), b.expect, bad[cls])
-		}
-		if b.name == "basic" || b.name == "compact" {
-			crossCheckMatches(&r, b.w, matchMenu, b.expect.IDs(), func(id b6.FeatureID) map[string]string { return ref.Get(id).TagMap() })
-		}
-	}
+	judge(&r, buildAll(spec, memory, compacts), sch, strings.Join(names, " "), "static:", menu, matchMenu)
 	return r
 }
 
@@ -554,7 +566,16 @@ func main() {
 			if deep != nil {
 				bound += fmt.Sprintf(" + on every %d-th world %d queries (depth <= 3 over %d atoms)", deepEvery, len(deep), len(staticAtomsDeep()))
 			}
-			return kit.FuncSpace{N: nA + nB, F: func(i int64) kit.Result {
+			worldsC := tokenWorlds(tier)
+			nC := int64(len(worldsC))
+			menuC := tokenMenu()
+			bound += fmt.Sprintf("; part C (token positions): every choice, for each of %d carrier features (%s), of absent / no searchable tag / one tag of {%s} x {%s} or {%s} = %d worlds with at least one feature (ID scheme rotating over 3) x 6 in-memory builder configurations + compact single file, merged from every ordered split of the features into two non-empty files (second file self-contained, and built as an overlay index on the first) and the same features in both files, x %d queries (%d atoms incl. absent keys/values before, between and after the present tokens; typed x 4; unary and/or; binary and/or with %d partner atoms in both operand orders)",
+				len(tokenCarriers(tier)), strings.Join(tokenCarrierNames[:len(tokenCarriers(tier))], ", "), strings.Join(tokenKeys, " "), strings.Join(tokenValues, " "), strings.Join(tokenFlagKeys, " "), nC, len(menuC), len(tokenAtoms()), len(tokenPartners()))
+			return kit.FuncSpace{N: nA + nB + nC, F: func(i int64) kit.Result {
+				if i >= nA+nB {
+					ci := i - nA - nB
+					return runTokens(tier, worldsC[ci], wk.Schemes[ci%3], menuC, ci%97 == 0)
+				}
 				if i < nA {
 					if deepState != nil && g.Layers[cases[i].layer].Depth == 0 {
 						return runStateCase(g, cases[i], deepState, stateMatch)
